@@ -49,6 +49,10 @@ type NodeOpts struct {
 	SnapshotInterval int
 	SnapshotKeep     int
 	NilTmNode        bool // leave tmNode nil (stop() => os.Exit)
+	// AppDir: keep only the (tiny) app DB in goleveldb under this directory while state and events stay in memdb.
+	// A process restart (RebootSame) then finds the app DB where the node's constructor looks for it, so the
+	// restarted instance initialises its state in the constructor exactly like a real restart.
+	AppDir string
 }
 
 // Node wraps one minter.Blockchain instance.
@@ -97,7 +101,13 @@ func (n *Node) open() {
 	opts := n.Opts
 	cfg := config.DefaultConfig()
 	home := opts.Dir
-	if home == "" {
+	if home == "" && opts.AppDir != "" {
+		home = opts.AppDir
+		cfg.DBBackend = "goleveldb"
+		if err := os.MkdirAll(filepath.Join(home, "data"), 0o755); err != nil {
+			panic(err)
+		}
+	} else if home == "" {
 		home = "/nonexistent-verif-home"
 		cfg.DBBackend = "memdb"
 	} else {
@@ -217,6 +227,13 @@ func (n *Node) Close() {
 
 // closeRaw closes the underlying DB handles directly (also used after a simulated crash).
 func (n *Node) closeRaw() {
+	if n.Opts.Dir == "" && n.Opts.AppDir != "" && n.rawApp != nil && n.preApp == nil {
+		func() {
+			defer func() { recover() }()
+			_ = n.rawApp.Close()
+		}()
+		n.rawApp = nil
+	}
 	if n.Opts.Dir != "" {
 		for _, d := range []db.DB{n.rawApp, n.rawState, n.rawEvents} {
 			if d != nil {
@@ -242,6 +259,9 @@ func (n *Node) Destroy() {
 	}
 	if n.snapDir != "" {
 		os.RemoveAll(n.snapDir)
+	}
+	if n.Opts.AppDir != "" {
+		os.RemoveAll(n.Opts.AppDir)
 	}
 }
 
@@ -542,6 +562,7 @@ func (im *MemImage) Boot() *Node { return im.BootWrapped(nil) }
 func (im *MemImage) BootWrapped(wrap func(store string, d db.DB) db.DB) *Node {
 	n := &Node{Opts: im.Opts}
 	n.Opts.Dir = ""
+	n.Opts.AppDir = ""
 	n.Opts.Wrap = wrap
 	n.Opts.SnapshotInterval = 0
 	n.rawState, n.rawEvents, n.preApp = copyMem(im.State), copyMem(im.Events), copyMem(im.App)
@@ -553,6 +574,18 @@ func (im *MemImage) BootWrapped(wrap func(store string, d db.DB) db.DB) *Node {
 func (n *Node) RebootSame() *Node {
 	m := &Node{Opts: n.Opts}
 	m.Opts.Wrap = nil
+	if n.Opts.Dir == "" && n.Opts.AppDir != "" && n.preApp == nil {
+		// the app DB lives in goleveldb: close the old handle, the new instance opens the directory itself
+		func() {
+			defer func() { recover() }()
+			n.App.VerifWaitSnapshots()
+		}()
+		n.closeRaw()
+		m.rawState, m.rawEvents = n.rawState, n.rawEvents
+		m.snapDB, m.snapDir = n.snapDB, n.snapDir
+		m.open()
+		return m
+	}
 	m.rawState, m.rawEvents, m.preApp = n.rawState, n.rawEvents, n.rawApp
 	m.snapDB, m.snapDir = n.snapDB, n.snapDir
 	m.open()
